@@ -221,7 +221,45 @@ func genC06Bad(t *rapid.T) c06Bad {
 		b[2], b[3] = byte(w>>8), byte(w)
 		return b
 	}
-	switch rapid.IntRange(0, 4).Draw(t, "bad.kind") {
+	switch rapid.IntRange(0, 5).Draw(t, "bad.kind") {
+	case 5:
+		// XR: the last block is of a type with a fixed structure (or fixed leading fields) but its
+		// block length is smaller than that structure: receiver reference time needs 2 words,
+		// statistics summary 9, VoIP metrics 8, the RLE and receipt-time blocks 2 before their
+		// lists, a DLRR block a multiple of 3
+		x := gen.XR(t, 3)
+		bt := rapid.SampledFrom([]int{m.XRRRT, m.XRSS, m.XRVoIP, m.XRLossRLE, m.XRDupRLE, m.XRPRT, m.XRDLRR}).Draw(t, "short.bt")
+		last := gen.XRBlock(t, bt)
+		need := map[int]int{m.XRRRT: 2, m.XRSS: 9, m.XRVoIP: 8, m.XRLossRLE: 2, m.XRDupRLE: 2, m.XRPRT: 2}[bt]
+		if bt == m.XRDLRR {
+			for len(last.Subs) == 0 || len(last.Subs) > 6 {
+				last = gen.XRBlock(t, bt)
+			}
+		} else {
+			last.Chunks, last.Times = nil, nil
+		}
+		x.Blocks = append(x.Blocks, last)
+		e, _ := m.Encode(m.Packet{Kind: m.KXR, XR: x}, nil)
+		b := e.B
+		pos, lastPos := 8, 8
+		for pos+4 <= len(b) {
+			lastPos = pos
+			pos += 4 * (int(b[pos+2])<<8 | int(b[pos+3]) + 1)
+		}
+		words := int(b[lastPos+2])<<8 | int(b[lastPos+3])
+		var cut int
+		if bt == m.XRDLRR {
+			cut = rapid.SampledFrom([]int{1, 2}).Draw(t, "short.cut") // leaves a partial sub-block
+		} else {
+			cut = rapid.IntRange(1, need).Draw(t, "short.cut")
+			if cut > words {
+				cut = words
+			}
+		}
+		b = b[:len(b)-4*cut]
+		nw := words - cut
+		b[lastPos+2], b[lastPos+3] = byte(nw>>8), byte(nw)
+		return c06Bad{Why: fmt.Sprintf("XR block of type %d with block length %d, shorter than its structure", bt, nw), Kind: m.KXR, Frame: fix(b)}
 	case 4:
 		// APP: the P bit is set but the padding count (last octet, which counts itself, RFC 3550
 		// section 6.4.1) is 0 or larger than the octets that follow the name
